@@ -371,3 +371,72 @@ Example C13_all_instance :
   sizes s = [0; 1; 0; 1; 0; 0; 0; 0; 0; 0; 1] /\
   sizes (closing c 7500000 s) = [0; 0; 0; 0; 0; 0; 0; 0; 0; 0; 1].
 Proof. vm_compute. split; reflexivity. Qed.
+
+(* ---- round 5: keep-alive pings and the first response of a registration ---- *)
+From GoCoap Require Conn.KeepAlive Conn.ObsFirst Monitor.Model Observe.Model.
+Module KA := GoCoap.Conn.KeepAlive.
+Module MM := GoCoap.Monitor.Model.
+Module OM := GoCoap.Observe.Model.
+
+(* the keep-alive of a connection (net/monitor/inactivity KeepAlive, Monitor/Model.v) composed with the
+   table its pings' continuations live in (tcp: tokenHandlerContainer, udp: midHandlerContainer):
+   for EVERY history of received messages, pongs (current, late, unknown), ticks with a working or a
+   failing transport, the table holds at most ONE ping continuation and it belongs to the ping whose
+   cancel function the keep-alive still keeps; nothing is held when no cancel function is kept or the
+   connection has been declared inactive *)
+Theorem C13_keepalive_table_bounded : forall c t0 h,
+  let '(s, t) := KA.krun c (KA.kinit t0) h in
+  (length t <= 1)%nat /\
+  (forall g, In g t -> MM.pending s = Some g) /\
+  (MM.pending s = None -> t = []) /\
+  (MM.closed s = true -> t = []).
+Proof. exact KA.keepalive_table_bounded. Qed.
+Print Assumptions C13_keepalive_table_bounded.
+
+(* a keep-alive round that acts in ANY reachable state -- in particular after a ping that was left
+   unanswered while other messages arrived -- leaves exactly the new ping's continuation, or none *)
+Theorem C13_keepalive_round_replaces : forall c t0 h tm ok,
+  let x := KA.krun c (KA.kinit t0) h in
+  let '(s1, t1, o) := KA.kstep c x (MM.Tick tm ok) in
+  MM.closed (fst x) = false -> o <> [] ->
+  (exists g, In (MM.Ping g) o /\ t1 = [g] /\ MM.pending s1 = Some g) \/
+  ((exists g, In (MM.PingFail g) o) /\ t1 = []) \/
+  (In MM.Close o /\ MM.ka c = true /\ t1 = []) \/
+  (MM.ka c = false /\ t1 = snd x).
+Proof. exact KA.keepalive_round_replaces. Qed.
+Print Assumptions C13_keepalive_round_replaces.
+
+(* the answer to the outstanding ping leaves nothing *)
+Theorem C13_keepalive_pong_empties : forall c t0 h g tm,
+  let x := KA.krun c (KA.kinit t0) h in
+  In g (snd x) -> MM.closed (fst x) = false ->
+  snd (fst (KA.kstep c x (MM.Pong g tm))) = [].
+Proof. exact KA.keepalive_pong_empties. Qed.
+Print Assumptions C13_keepalive_pong_empties.
+
+(* a first response without the Observe option ends the registration with no observation live:
+   from ANY state, for ANY response code (2.05, 2.03 Valid of a conditional registration, an error),
+   the entry of that registration is gone when NewObservation returns; other entries are untouched *)
+Theorem C13_registration_not_established : forall dec s m now o,
+  OM.tget (OM.crc64 (OM.m_tok m)) (OM.tbl s) = Some o -> OM.o_wait o = true -> dec m = None ->
+  let r := OM.handle_msg dec s m now in
+  OM.tget (OM.crc64 (OM.o_tok o)) (OM.tbl (fst r)) = None /\
+  OM.regs (fst r) = OM.regs s /\
+  (forall k, k <> OM.crc64 (OM.o_tok o) -> OM.tget k (OM.tbl (fst r)) = OM.tget k (OM.tbl s)) /\
+  (In (OM.RegRet (OM.o_id o) 1) (snd r) \/ In (OM.RegRet (OM.o_id o) 2) (snd r)).
+Proof. exact GoCoap.Conn.ObsFirst.first_response_without_observe. Qed.
+Print Assumptions C13_registration_not_established.
+
+(* non-trivial instance: keep-alive with 5 retries; ping 1 is left unanswered while two other messages
+   arrive, the next round replaces it by ping 2 (one continuation), a late pong for ping 1 changes
+   nothing, the pong for ping 2 empties the table.  A conditional registration answered 2.03 Valid
+   without Observe leaves no entry. *)
+Example C13_round5_instance :
+  let c := {| MM.period := 1; MM.maxr := 5; MM.ka := true |} in
+  let h := [MM.Tick 3600 true; MM.Recv 0; MM.Recv 0; MM.Tick 7200 true; MM.Pong 1 0] in
+  snd (KA.krun c (KA.kinit 0) h) = [2] /\
+  snd (KA.krun c (KA.kinit 0) (h ++ [MM.Pong 2 0])) = [] /\
+  (let s := GoCoap.Conn.Model.run {| R.ack_ms := 140000; R.max_rt := 2; R.nstart := 16 |} (GoCoap.Conn.Model.init 0 1)
+              [ObReg [1; 2]; ObMsg [1; 2] 67 None 0] in
+   sizes s = [0; 0; 0; 0; 0; 0; 0; 0; 0; 0; 0] /\ live s = []).
+Proof. vm_compute. repeat split; reflexivity. Qed.
